@@ -16,6 +16,8 @@ from harness.common import exprconv
 def value_of(seed, name: str, kind: str = "pos"):
     """Deterministic rational value for a named input (same name -> same value in every model of a case)."""
     r = random.Random(f"{seed}:{name}")
+    if name in ("FA1", "FA2"):       # occasion / flag columns of the example data: 0 or 1
+        return sympy.Integer(r.randint(0, 1))
     if kind == "small":
         return sympy.Rational(r.choice([-1, 1]) * r.randint(1, 9), r.choice([7, 11, 13, 17]))
     return sympy.Rational(r.randint(1, 40), r.randint(3, 9))
